@@ -221,6 +221,11 @@ WITNESSES.append({"match": r"lsppos\.line_char_to_offset", "kind": "lsp-sweep", 
                   "note": "position sweeps over %d documents (every UTF-16 column, including the middle of surrogate pairs and out-of-range positions)" % len(_SWEEP)})
 
 
+BOUNDED = [
+    {"name": "quick_fix_ranges", "kind": "lsp-fix-ranges", "props": ["C29"], "input": common.LSP_FIX_PROGRAMS, "n_inputs": len(common.LSP_FIX_PROGRAMS), "bound": common.LSP_FIX_BOUND, "expect": {}},
+]
+
+
 def build(tier):
     u = UnitFile("lsppos")
     u.raw(common.HEADER)
